@@ -71,7 +71,12 @@ SIMV = {v: simv(v) for v in VARIANTS}
 
 
 def gt_slot(p, x):
-    return p.new("FPX", G.enc_gt(x, x.FT.one))
+    """output object of a pairing: holds STALE, non-identity content (coefficients 2, 3, ...), so that a routine that
+    returns without writing its result (empty multi-pairing list, identity operands) cannot pass by accident: the
+    expected value in exactly those cases is 1 (seed C04-6 was missed while this slot was initialised to 1)"""
+    F = x.F
+    body = b"".join(F.to_raw_int(j + 2).to_bytes(F.nbytes, "little") for j in range(x.kemb))
+    return p.new("FPX", bytes([x.kemb]) + struct.pack("<I", len(body)) + body)
 
 
 def g2mul(x, b):
